@@ -128,6 +128,7 @@ struct ListWorld : World {
     }
     void sut_abandon() override { l = nullptr; qq = nullptr; qs = nullptr; qg = nullptr; }
     void *sut_mutex() override { return base()->qmutex; }
+    bool sut_user_lock() override { InSutLock s; base()->lock(base()); return true; }
     void sut_force_unlock() override { InSutLock s; base()->unlock(base()); }
     void sut_probe(Ctx &) override { InSut s; qlist_t *b = base(); b->getat(b, 0, nullptr, false); }
 
@@ -230,10 +231,11 @@ struct ListWorld : World {
             bool newmem = op.d & NEWMEM;
             if (op.k == L_LOCKEDWALK) { InSutLock s; l->lock(l); }
             qlist_obj_t o; memset(&o, 0, sizeof o);
-            Bytes out; size_t cnt = 0, guard = b->num * 2 + 8; bool failed = false;
+            Bytes out; size_t cnt = 0, guard = b->num * 2 + 8; bool failed = false; int fired_seen = sim_fault_fired(), retries = 0;
             for (;;) {
                 bool more; { InSut s; more = l->getnext(l, &o, newmem); }
-                if (!more) { if (sim_fault_fired() > 0) failed = true; break; }
+                if (!more && newmem && sim_fault_fired() > fired_seen && retries < 1) { fired_seen = sim_fault_fired(); retries++; x.st.add("probe.walk_step_retried_after_enomem"); continue; }
+                if (!more) { if (sim_fault_fired() > fired_seen) failed = true; break; }
                 Bytes e((const char *)o.data, o.size);
                 if (newmem) x.hold(o.data, e, "list.getnext(newmem)");
                 enc(out, e);
